@@ -92,11 +92,13 @@ RCP<const Basic> Infty::conjugate() const
     if (is_positive_infinity() or is_negative_infinity()) {
         return infty(_direction);
     }
-    return make_rcp<const Conjugate>(ComplexInf);
+    return ComplexInf;
 }
 
 RCP<const Number> Infty::add(const Number &other) const
 {
+    if (is_a<NaN>(other))
+        return Nan;
     if (not is_a<Infty>(other))
         return rcp_from_this_cast<Number>();
 
@@ -131,7 +133,7 @@ RCP<const Number> Infty::mul(const Number &other) const
 
 RCP<const Number> Infty::div(const Number &other) const
 {
-    if (is_a<Infty>(other)) {
+    if (is_a<Infty>(other) or is_a<NaN>(other)) {
         return Nan;
     } else {
         if (other.is_positive())
@@ -145,7 +147,9 @@ RCP<const Number> Infty::div(const Number &other) const
 
 RCP<const Number> Infty::pow(const Number &other) const
 {
-    if (is_a<Infty>(other)) {
+    if (is_a<NaN>(other)) {
+        return Nan;
+    } else if (is_a<Infty>(other)) {
         if (is_positive_infinity()) {
             if (other.is_negative()) {
                 return zero;
